@@ -48,17 +48,22 @@ def _one(raw):
         return None
     rot = (zlib.crc32(raw.encode()) + _J['seed']) % 100003
     kinds = case['mod']
-    src = sessionlib.render_module(kinds, rot, layout=['google', 'freeform'][rot % 2])
+    c = case['cmd']['c']
+    # a fifth of the modules keeps all its doctests in ONE docstring (g:0, g:1, ...): selection and force-disabling are per doctest
+    shared = rot % 5 == 0 and c != 'namedfunc' and len(kinds) >= 2
+    name = (lambda i: 'g:%d' % i) if shared else (lambda i: 'f%d:0' % i)
+    src = sessionlib.render_module(kinds, rot, layout='shared' if shared else ['google', 'freeform'][rot % 2])
     modname = 'xdvs_%d_%08x' % (os.getpid(), zlib.crc32(raw.encode()))
     path = os.path.join(_J['dir'], modname + '.py')
     with open(path, 'w') as f:
         f.write(src)
-    c = case['cmd']['c']
-    command = {'all': 'all', 'list': 'list', 'named': 'f%d:0' % (case['cmd']['target'] - 1), 'namedfunc': 'f%d' % (case['cmd']['target'] - 1)}[c]
+    command = {'all': 'all', 'list': 'list', 'named': name(case['cmd']['target'] - 1), 'namedfunc': 'f%d' % (case['cmd']['target'] - 1)}[c]
     verbose = rot % 4
     if c == 'list':
         verbose = max(1, verbose)       # the listing is ordinary (level 1) output; verbosity 0 means quiet
     style = ['auto', 'google', 'freeform'][rot % 3] if rot % 2 == 0 else ['auto', 'freeform'][rot % 2]
+    if shared:
+        style = ['auto', 'google'][rot % 2]
     config = {'default_runtime_state': {'none': {}, 'skip': {'SKIP': True}, 'noell': {'ELLIPSIS': False}, 'req': {'REQUIRES': {'module:xdv_nope_q'}}}[case['opt']]}
     bad = []
     try:
@@ -68,15 +73,15 @@ def _one(raw):
             bad.append(('doctest_module', 'returns', res['raised']))
         elif c == 'list':
             for i in range(len(kinds)):
-                if 'f%d:0' % i not in res['stdout']:
-                    bad.append(('list_names[f%d:0]' % i, 'listed', res['stdout'][-300:]))
+                if name(i) not in res['stdout']:
+                    bad.append(('list_names[%s]' % name(i), 'listed', res['stdout'][-300:]))
         else:
             s = res['summary']
             got = (s.get('n_passed'), s.get('n_failed'), s.get('n_skipped'), s.get('n_total'))
             if got != case['tallies']:
                 bad.append(('tallies(passed,failed,skipped,total)', case['tallies'], got))
-            fnames = [e.callname for e in s.get('failed', [])]
-            exp_failed = ['f%d' % (i - 1) for i in case['failed']]
+            fnames = ['%s:%d' % (e.callname, e.num) for e in s.get('failed', [])]
+            exp_failed = [name(i - 1) for i in case['failed']]
             if fnames != exp_failed:
                 bad.append(('failed_list', exp_failed, fnames))
             # each gathered doctest ran exactly once, in order
